@@ -1330,7 +1330,9 @@ class ExprGen:
 
     def bool_leaf(self, nonnull):
         r = self.rng
-        cs = self.cols(("bool",), nonnull=True if nonnull else False)
+        # a bare bool column as a logic operand must be null-free: numpy reads NaN as True (np.logical_or(False, NaN)),
+        # SQL as NULL, and an object-dtype mask with NaN raises: never a null-safe filter (N1/N17 family)
+        cs = self.cols(("bool",), nonnull=True)
         if cs and r.random() < 0.5:
             return self.col(r.choice(cs))
         return self.b_cmp(3, nonnull)
